@@ -539,9 +539,10 @@ func replay(in string, names []string, nk, ntk int, variants []string, prop, scr
 	abandoned := 0
 	protoDev := 0
 	retries := 0
+	unreached := 0
 	known := map[string]int{}
 	type acc struct {
-		abandoned, protoDev, retries, known int
+		abandoned, protoDev, retries, known, unreached int
 		knownEx                             *hx.Mismatch
 	}
 	var knownEx *hx.Mismatch
@@ -553,6 +554,7 @@ func replay(in string, names []string, nk, ntk int, variants []string, prop, scr
 			abandoned += a.abandoned
 			protoDev += a.protoDev
 			retries += a.retries
+			unreached += a.unreached
 			nKnown += a.known
 			if knownEx == nil && a.knownEx != nil {
 				knownEx = a.knownEx
@@ -634,7 +636,9 @@ func replay(in string, names []string, nk, ntk int, variants []string, prop, scr
 				}
 				a.retries++
 				if attempt > 400 {
-					rep.AddMismatch(hx.Mismatch{Behaviour: idx, Op: "Crash", What: "order", Want: "the substore commit order of the behaviour is reachable", Got: "not reached in 400 attempts", History: beh, Variant: vs})
+					// the map iteration order of the real Commit never produced the substore order this behaviour
+					// asks for: the behaviour cannot be replayed (a limit of the harness, never a verdict)
+					a.unreached++
 					break attempts
 				}
 			}
@@ -655,6 +659,7 @@ func replay(in string, names []string, nk, ntk int, variants []string, prop, scr
 	rep.Extra["abandoned"] = abandoned
 	rep.Extra["protocol_deviations"] = protoDev
 	rep.Extra["order_retries"] = retries
+	rep.Extra["order_unreached"] = unreached
 	rep.Extra["prop"] = prop
 	rep.Print()
 }
